@@ -22,7 +22,7 @@ THEOREMS = ["insert_pop_restores", "insert_minus_one_restores", "isolated_copy_h
 
 PROFILE = dict(parentloop_in_fill=True, collide=0.8, p_only=0.25, w_with=3, w_for=2, w_slot=4, w_comp=5, p_data_alias=0.5, p_default_alias=0.2,
                p_fill_in_ctl=0.5, p_forloop_print=0.35)
-REGIONS = ["captured-parentloop-aliased", "forloop-layer-leaks-into-isolated", "django-only-fill-loses-outer", "django-slot-owner-override",
+REGIONS = ["default-alias-render-sees-fill-aliases", "captured-parentloop-aliased", "forloop-layer-leaks-into-isolated", "django-only-fill-loses-outer", "django-slot-owner-override",
            "django-captured-over-data"]
 
 
